@@ -23,6 +23,7 @@ var blClassForPurge = int64(-1)
 
 func runC21(w *World, r *Report) {
 	defer c21CachedTokenKeepsExpiry(w, r)
+	defer c21CacheHitRevocation(w, r)
 
 	r.Rule("R-C21-1", "acceptance gates (path-sensitive edge cut): for each guard g in {Decrypt error nil, not expired, not revoked, revocation lookup answered} no consistent path of Unwrap / Validate reaches a success return when g's edges are removed", 6)
 	r.Rule("R-C21-2", "Session.Authenticate: the authenticated-by-cache assignment is unreachable once the edges {cached token not expired, cached value is not a full token, cached token has no expiry} are removed", 1)
@@ -193,17 +194,8 @@ func runC21(w *World, r *Report) {
 						return true
 					}
 
-					// isFull (comma-ok of the *Token assertion, possibly and-ed with != nil)
-					return derivesFrom(f.V, func(s ssa.Value) bool {
-						e, ok := s.(*ssa.Extract)
-						if !ok {
-							return false
-						}
-
-						_, isTA := e.Tuple.(*ssa.TypeAssert)
-
-						return isTA
-					}, nil)
+					// isFull (comma-ok of the *Token assertion, possibly and-ed with != nil) and nothing else
+					return c21IsFullFlag(f.V, 0)
 				case "true":
 					return isCall && callID(c.Common()) == "time.Time.IsZero"
 				}
